@@ -12,7 +12,7 @@ import (
 func init() { register("C03", propC03) }
 
 func propC03(r *Report, tier string) {
-	r.Explanation = "Ordering clauses of the durability protocol (not recovery contents), decided on every path of the anchored functions: (a) snapshot persister: prepareBoltSnapshot (all segment writes) -> tx.Commit -> rootBolt.Sync on every success path, rollback deferred for every failure exit, ineligible marks cleared only after Commit; (b) persister loop: batch waiters released and persisted-callbacks invoked only after persistSnapshot returned, error delivered before close, callbacks only on success and retained on failure, waiters taken in the same critical section as the root; (c) prepareSegment waits for applied then persisted (channel created iff safe-batch) and returns the persisted error; the introducer registers the waiter in the same write critical section that swaps the root; (d) merge products are marked ineligible before MergeUsing creates them and un-marked only on failure/skip; (e) bolt key agreement: every key read on open/rollback is written by prepareBoltSnapshot with matching writer/reader nil-ness; (f) on open, loadFromBolt and the open-phase purge complete before any background loop starts."
+	r.Explanation = "Ordering clauses of the durability protocol (not recovery contents), decided on every path of the anchored functions: (a) snapshot persister: prepareBoltSnapshot (all segment writes) -> tx.Commit -> rootBolt.Sync on every success path, rollback deferred for every failure exit, ineligible marks cleared only after Commit; (b) persister loop: batch waiters released and persisted-callbacks invoked only after persistSnapshot returned, error delivered before close, callbacks only on success and retained on failure, waiters taken in the same critical section as the root; (c) prepareSegment waits for applied then persisted (channel created iff safe-batch) and returns the persisted error; the introducer registers the waiter in the same write critical section that swaps the root; (d) merge products are marked ineligible before MergeUsing creates them and un-marked only on failure/skip; (e) bolt key agreement: every key read on open/rollback is written by prepareBoltSnapshot with matching writer/reader nil-ness; (f) on open, loadFromBolt and the open-phase purge complete before any background loop starts. (h) un-marking in the introducers: names are queued for un-marking only on paths that do not carry that segment into the new root, and un-marked after the root swap."
 	r.NotCovered = "what a reopened index contains; torn files; bbolt/zapx fsync behaviour (trusted); index_meta.json durability; unsafe-batch callback timing beyond (b)"
 	r.Trusted = []string{"bbolt Tx.Commit is atomic and durable after DB.Sync", "zapx Persist/MergeUsing fsync the segment file before returning", "go/types callee resolution, go/cfg"}
 	ruleSnapshotPersisterOrder(r, "K5-persist-order")
